@@ -229,9 +229,7 @@ PROPS = {
         "design_ref": "DESIGN.md §4.3",
     },
     "C17": {
-        # two Kani sessions: compiled together with the ~270 may_invalidate harnesses of the thorough
-        # tier, the AntiUnifier harnesses show spurious pointer failures inside ena's Vec::push
-        # (non-reproducing, DESIGN.md B19); on their own they verify
+        # two Kani sessions (halves the session size; DESIGN.md B19)
         "units": [engine_unit("harness/engine/c17_inval.rs", "harness/engine/c17_inval_rows.rs",
                               modules={"harness/engine/c17_inval.rs": "slg::verif_c17_inval",
                                        "harness/engine/c17_inval_rows.rs": "slg::verif_c17_inval"}),
